@@ -198,11 +198,11 @@ def progress (s : St) : St :=
     | some n => { s with cur := s.nxt, nxt := n, prog := .pending }
     | none => s.raise
 
-/-- `_tap_outcome_handler`. -/
+/-- `_tap_outcome_handler` (a re-attack resets the stage progress: repair of F-C19-4). -/
 def outcomeHandler (c : Cfg) (s : St) : St :=
   if s.cur = .succeeded ∨ s.cur = .failed then
     if s.concluded then { s with chosen := Act.nothing }
-    else if c.repeatKillChain then { s with cur := .notStarted, nxt := .download, chosen := Act.nothing }
+    else if c.repeatKillChain then { s with cur := .notStarted, nxt := .download, prog := .pending, chosen := Act.nothing }
     else { s with concluded := true, chosen := Act.nothing }
   else s
 
@@ -674,7 +674,7 @@ def progress (s : St) : St :=
 def outcomeHandler (c : Cfg) (s : St) : St :=
   if s.cur = .succeeded ∨ s.cur = .failed then
     if s.concluded then { s with chosen := Act.nothing }
-    else if c.repeatKillChain then { s with cur := .notStarted, nxt := .reconnaissance, chosen := Act.nothing }
+    else if c.repeatKillChain then { s with cur := .notStarted, nxt := .reconnaissance, prog := .pending, chosen := Act.nothing }
     else { s with concluded := true, chosen := Act.nothing }
   else s
 
